@@ -160,6 +160,22 @@ def srcModelAnswer (i : SrcInst) (op : String) : Option V :=
     if op == "cached" then (if (i.log.filter (· == "pull")).length == 0 then none else ((exprPulls i.e k).getLast?).getD none)
     else ((exprPulls i.e k).getLast?).getD none
 
+/-- the largest count in a tree -/
+partial def exprMaxCount : Expr V → Nat
+  | .take n e => max n (exprMaxCount e) | .skip _ e => exprMaxCount e | .chain a b => max (exprMaxCount a) (exprMaxCount b)
+  | .cycle e => exprMaxCount e | .rep _ n => n | .padc _ n e => max n (exprMaxCount e) | .pade n e => max n (exprMaxCount e)
+  | .cache e => exprMaxCount e | .rt e => exprMaxCount e | _ => 0
+
+/-- counts (of `take`, the pads, `repeat`) cut down to a horizon no case comes near: the iterator analogue is a list,
+and a list of `usize::MAX` repetitions cannot be written down; its first `h` answers are those of the clamped tree -/
+partial def exprClamp (h : Nat) : Expr V → Expr V
+  | .take n e => .take (min n h) (exprClamp h e) | .skip n e => .skip n (exprClamp h e)
+  | .chain a b => .chain (exprClamp h a) (exprClamp h b) | .cycle e => .cycle (exprClamp h e)
+  | .rep v n => .rep v (min n h) | .padc v n e => .padc v (min n h) (exprClamp h e) | .pade n e => .pade (min n h) (exprClamp h e)
+  | .cache e => .cache (exprClamp h e) | .rt e => .rt (exprClamp h e) | e => e
+
+def specDen (e : Expr V) : Content V := if exprMaxCount e > 256 then (exprClamp 256 e).den else e.den
+
 /-- specification: the iterator analogue (`Expr.den`) -/
 def srcSpecAnswer (i : SrcInst) (op : String) : Option V :=
   let consumed := (i.log.filter (· == "pull")).length
@@ -174,10 +190,10 @@ def srcSpecAnswer (i : SrcInst) (op : String) : Option V :=
     else raw consumed
   | none =>
   match op with
-  | "cached" => if consumed == 0 then none else i.e.den.answer (consumed - 1)
+  | "cached" => if consumed == 0 then none else (specDen i.e).answer (consumed - 1)
   | _ =>
-    if i.top == "peek" then ((peekSpec i.e.den 0 ((i.log ++ [op]).map (· == "peek"))).getLast?).getD none
-    else i.e.den.answer consumed
+    if i.top == "peek" then ((peekSpec (specDen i.e) 0 ((i.log ++ [op]).map (· == "peek"))).getLast?).getD none
+    else (specDen i.e).answer consumed
 
 def DState.getSrc (d : DState) (id : Nat) : Option SrcInst := (d.srcs.find? (·.1 == id)).map (·.2)
 def DState.putSrc (d : DState) (id : Nat) (i : SrcInst) : DState :=
@@ -368,6 +384,44 @@ def stepSinkOp (d : DState) (op : String) (toks impl : List String) : Option (DS
                         clauses := [{ name := clause, ok := ea == eb, expected := eb }] })
   | _ => none
 
+/-- the arithmetic sinks at `i64`: no closed-form batch statistic exists there (every step truncates), so the model — the
+sink's own recurrence in exact integers with truncating division — is the reference; samples are chosen so that the
+recurrence itself never leaves the range, and a panic (an intermediate that does leave it) is a violation -/
+def stepI64SinkOp (d : DState) (op : String) (toks impl : List String) : Option (DState × List String) :=
+  let implS := " ".intercalate impl
+  let get (id : Nat) : Option (SinkModels.Sk I64) := (d.isinks.find? (·.1 == id)).map (·.2)
+  let put (d : DState) (id : Nat) (k : SinkModels.Sk I64) : DState := { d with isinks := (id, k) :: d.isinks.filter (·.1 != id) }
+  let rl (o : Option (List I64)) : String := match o with
+    | none => "none" | some l => if l.isEmpty then "-" else " ".intercalate (l.map I64.render)
+  match toks with
+  | ["new", id, kind] => do
+    let k : SinkModels.Sk I64 ← match kind with
+      | "sink_mean_i64" => some (.mean none)
+      | "sink_meanvar_i64" => some (.meanVar none)
+      | "sink_stats_i64" => some (.statistics none none none)
+      | "sink_integrate_i64" => some (.integrate none)
+      | _ => none
+    some (report ((put d (← id.toNat?) k).flag "sink.i64") op { model := "ok", impl := implS, kind := kind })
+  | ["sink", id, v] => do
+    let id ← id.toNat?
+    let k ← get id
+    let x ← I64.parse v
+    let cl : List Clause := if implS == "PANIC" then [clauseP "no-panic" false "ok"] else []
+    some (report (put d id (k.sink x)) op { model := "ok", impl := implS, kind := "sink-i64", clauses := cl })
+  | ["ff", id, v] => do
+    let id ← id.toNat?
+    let k ← get id
+    let x ← I64.parse v
+    let r := k.filter x
+    let cl : List Clause := if implS == "PANIC" then [clauseP "no-panic" false (rl (some r.2))] else []
+    some (report (put d id r.1) op { model := rl (some r.2), impl := implS, kind := "sink-i64", clauses := cl })
+  | ["fin", id] => do
+    let id ← id.toNat?
+    let k ← get id
+    let cl : List Clause := if implS == "PANIC" then [clauseP "no-panic" false (rl k.finalize)] else []
+    some (report d op { model := rl k.finalize, impl := implS, kind := "sink-i64", clauses := cl })
+  | _ => none
+
 /-! ### pipes -/
 
 partial def parseShape (cs : List Char) : Option (PShape × List Char) :=
@@ -481,6 +535,10 @@ partial def shapeFlags : PShape → List String
   | .pipe a b => (match b with | .pipe _ _ => ["pipe.right-nested"] | _ => []) ++
                  (match a with | .pipe _ _ => ["pipe.left-nested"] | _ => []) ++ shapeFlags a ++ shapeFlags b
 
+/-- one sample through the stages in pipeline order -/
+def threadOwn (ls : List (PipeRegistry.Own V)) (x : V) : List (PipeRegistry.Own V) × V :=
+  ls.foldl (fun (acc : List (PipeRegistry.Own V) × V) o => let r := o.step acc.2; (acc.1 ++ [r.1], r.2)) ([], x)
+
 def stepPipeOp (d : DState) (op : String) (toks impl : List String) : Option (DState × List String) :=
   let implS := " ".intercalate impl
   match toks with
@@ -495,11 +553,30 @@ def stepPipeOp (d : DState) (op : String) (toks impl : List String) : Option (DS
       (d.putPipe (← id.toNat?) { shape := shape, leaves := leaves, source := source, sink := sink })
     let d := d.flag s!"pipe.k{leaves.length}"
     some (report d op { model := "ok", impl := implS, kind := "pipe" })
+  | ["plong", id] => do
+    -- long-run mode: from here on the pipe is followed through the current states of its stages (all harness-defined)
+    let id ← id.toNat?
+    let p ← d.getPipe id
+    let owns ← p.leaves.mapM (fun l => match l with | .own o => some o | _ => none)
+    if !p.log.isEmpty || p.pulls != 0 then none else
+    let lsrc : Option (Option LSrc) := match p.source with
+      | none => some none
+      | some (.expr (.take n (.incr a s))) => some (some { cur := a, step := s, left := some n })
+      | some (.expr (.incr a s)) => some (some { cur := a, step := s, left := none })
+      | _ => none
+    let d := (d.putPipe id { p with long := true, lleaves := owns, lsrc := ← lsrc, lsink := p.sink }).flag "pipe.long-run"
+    some (report d op { model := "ok", impl := implS, kind := "pipe" })
   | ["pf", id, v] => do
     -- Filter::filter on a pipe of filters
     let id ← id.toNat?
     let p ← d.getPipe id
     let x ← V.parse v
+    if p.long then
+      let (ls, y) := threadOwn p.lleaves x
+      let d := d.putPipe id { p with lleaves := ls }
+      some (report d op { model := y.render, impl := implS, kind := "pipe",
+                          clauses := [{ name := "C01.sequential-composition", ok := y.render == implS, expected := y.render }] })
+    else
     let log := p.log ++ [x]
     let m ← pipeRunLast p.leaves p.shape log
     let e := ((seqSpec p.leaves log).getLast?).getD V.err
@@ -518,6 +595,16 @@ def stepPipeOp (d : DState) (op : String) (toks impl : List String) : Option (DS
     -- Source::source on a pipe whose first stage is a source
     let id ← id.toNat?
     let p ← d.getPipe id
+    if p.long then
+      let src ← p.lsrc
+      let (o, src') := src.pull
+      let (ls, y) : List (PipeRegistry.Own V) × Option V := match o with
+        | none => (p.lleaves, none)
+        | some x => let r := threadOwn p.lleaves x; (r.1, some r.2)
+      let d := d.putPipe id { p with lleaves := ls, lsrc := some src' }
+      some (report d op { model := renderOpt y, impl := implS, kind := "pipe",
+                          clauses := [{ name := "C01.source-pipe", ok := renderOpt y == implS, expected := renderOpt y }] })
+    else
     let e ← p.source
     let k := p.pulls + 1
     let m ← pipePullLast p.leaves e p.shape k
@@ -535,10 +622,21 @@ def stepPipeOp (d : DState) (op : String) (toks impl : List String) : Option (DS
     let id ← id.toNat?
     let p ← d.getPipe id
     let x ← V.parse v
+    if p.long then
+      let k ← p.lsink
+      let (ls, y) := threadOwn p.lleaves x
+      some (report (d.putPipe id { p with lleaves := ls, lsink := some (k.sink y) }) op { model := "ok", impl := implS, kind := "pipe" })
+    else
     some (report (d.putPipe id { p with log := p.log ++ [x] }) op { model := "ok", impl := implS, kind := "pipe" })
   | ["pfin", id] => do
     let id ← id.toNat?
     let p ← d.getPipe id
+    if p.long then
+      let e := renderFin (← p.lsink).finalize
+      let d := d.putPipe id { p with finalised := true }
+      some (report d op { model := e, impl := implS, kind := "pipe",
+                          clauses := [{ name := "C01.sink-pipe", ok := e == implS, expected := e }] })
+    else
     let k ← p.sink
     let m := renderFin (← pipeFinalize p.leaves k p.shape p.log)
     -- specification: finalising that sink after it received the samples filtered by the stages in order
@@ -577,13 +675,16 @@ def step (d : DState) (line : String) : DState × List String :=
   match toks with
   | ["case", n] =>
     let out := closeCase d
-    ({ d with insts := [], srcs := [], sinks := [], pipes := [], f64s := [], f32s := [], i64s := [], caseNo := n.toNat?.getD (d.caseNo + 1),
+    ({ d with insts := [], srcs := [], sinks := [], pipes := [], f64s := [], f32s := [], i64s := [], isinks := [], caseNo := n.toNat?.getD (d.caseNo + 1),
               flags := [], caseOps := 0 }, out)
   | _ =>
     match stepPipeOp d op toks impl with
     | some r => r
     | none =>
     match stepSourceOp d op toks impl with
+    | some r => r
+    | none =>
+    match stepI64SinkOp d op toks impl with
     | some r => r
     | none =>
     match stepSinkOp d op toks impl with
